@@ -1,2 +1,2 @@
--- stub: suite not built yet
-def main : IO Unit := pure ()
+import ShellOp.Drv.C17
+def main : IO Unit := ShellOp.Drv.C17.suite.main
